@@ -108,7 +108,12 @@ impl Assembler {
         let mut buffers = old.into_sorted_vec();
         self.buffered = 0;
         let mut fragmented_buffered = 0;
-        let mut offset = 0;
+        // In ordered mode everything below `bytes_read` has already been delivered, so data
+        // buffered below it (e.g. from an overlapping retransmission) is duplicate as well.
+        let mut offset = match self.state {
+            State::Ordered => self.bytes_read,
+            State::Unordered { .. } => 0,
+        };
         for chunk in buffers.iter_mut().rev() {
             chunk.try_mark_defragment(offset);
             let size = chunk.bytes.len();
